@@ -215,6 +215,16 @@ func (s *server) HandleRemoteQueries(r *rpc.RegisterQueryHandler, stream grpc.Se
 				break
 			}
 
+			if first && m.EndOfResults {
+				// The follower finished, or more likely failed, before it sent its
+				// fields: this is the final message, not the fields information
+				// (passing it on as fields would make the partition look complete).
+				if m.Error != "" {
+					finalErr = errors.New(m.Error)
+				}
+				break
+			}
+
 			if first {
 				// First message contains only fields information
 				onFields(m.Fields)
